@@ -97,19 +97,19 @@ Is(a, c) == c \in AtomClasses[a]
 \* str(a) = the string; obj(k, v) = {k: v}; arr(a, b) = [a, b]; nest(k, v) = {o: {k: [v, {k: v}]}, l: [[v], []], m: [{k: v}, v, [{k: v}, 1]]};
 \* mixed = null/bools/numbers/empty containers;
 \* tables(k, v) = {t: {k: v, s: {k: v}, e: {}}, aot: [{k: v}, {k: 1}, {}], e: {}, ea: [], es: {e: {}}, k: v}
-\* jsonml(t, v) = ["root", {at: t}, v, ["c", v]]; ini(k, v) = {main: {k: v}, sections: {sec: {k: v, l: [v, "x"]}}};
+\* jsonml(t, v) = ["root", {at: t}, v, ["c", v]]; jsonmlattr(t, v) = ["root", {at: t, n: 1, b: true, l: [v, "y"], o: {k: v}}, v]; ini(k, v) = {main: {k: v}, sections: {sec: {k: v, l: [v, "x"]}}};
 \* func, badjsonml = values outside some domains
 StringsOf(s) == CASE s.sh = "str" -> {s.a}
                   [] s.sh \in {"obj", "nest", "tables"} -> {s.k, s.v}
                   [] s.sh = "arr" -> {s.a, s.b}
-                  [] s.sh = "jsonml" -> {s.t, s.v}
+                  [] s.sh \in {"jsonml", "jsonmlattr"} -> {s.t, s.v}
                   [] s.sh = "ini" -> {s.k, s.v}
                   [] OTHER -> {}
 KeysOf(s) == IF s.sh \in {"obj", "nest", "tables", "ini"} THEN {s.k} ELSE {}
 ValueStrings(s) == CASE s.sh = "str" -> {s.a}
                      [] s.sh \in {"obj", "nest", "tables", "ini"} -> {s.v}
                      [] s.sh = "arr" -> {s.a, s.b}
-                     [] s.sh = "jsonml" -> {s.t, s.v}
+                     [] s.sh \in {"jsonml", "jsonmlattr"} -> {s.t, s.v}
                      [] OTHER -> {}
 Formats == {"yaml", "yamlstream", "toml", "python", "pythonvars", "xml", "ini"}
 
@@ -119,12 +119,12 @@ Domain(f, s) ==
     [] f \in {"yaml", "yamlstream"} ->
          (IF \A a \in ValueStrings(s) : YamlOk(a) THEN "in" ELSE "open")           \* keys are always quoted or bare-safe
     [] f = "toml" ->
-         (CASE s.sh \in {"str", "arr", "jsonml", "badjsonml"} -> "out"             \* the document is a table
+         (CASE s.sh \in {"str", "arr", "jsonml", "jsonmlattr", "badjsonml"} -> "out"             \* the document is a table
             [] s.sh = "mixed" -> "out"                                             \* contains null
             [] OTHER -> "in")
     [] f = "python" -> "in"
     [] f = "pythonvars" ->
-         (CASE s.sh \in {"str", "arr", "jsonml", "badjsonml"} -> "out"
+         (CASE s.sh \in {"str", "arr", "jsonml", "jsonmlattr", "badjsonml"} -> "out"
             [] s.sh = "mixed" -> "in"
             [] OTHER -> IF \A k \in KeysOf(s) : Is(k, "ident") /\ ~Is(k, "pykw") THEN "in" ELSE "open")
     [] f = "xml" ->
@@ -136,6 +136,9 @@ Domain(f, s) ==
                  (IF Is(s.v, "ctrl") \/ Is(s.t, "ctrl") \/ Is(s.v, "cr") \/ Is(s.t, "cr") THEN "open"   \* not representable / normalised
                   ELSE IF Is(s.t, "xmlattr") THEN "open-attr"                       \* text must survive, the attribute is left open
                   ELSE "in")
+            [] s.sh = "jsonmlattr" ->                                               \* attribute values that are not strings:
+                 (IF Is(s.v, "ctrl") \/ Is(s.t, "ctrl") \/ Is(s.v, "cr") \/ Is(s.t, "cr") THEN "open"
+                  ELSE "open-attr")                                                 \* well-formed and the text survives, whatever the attribute text is
             [] OTHER -> "out")
     [] f = "ini" ->
          (CASE s.sh = "ini" -> (IF Is(s.k, "ident") /\ Is(s.v, "inival") THEN "in" ELSE "open")
@@ -163,6 +166,7 @@ Expand(sd, a) ==
     [] sd.sh = "nest" -> {[sh |-> "nest", k |-> a, v |-> b] : b \in Second("nest", a)}
     [] sd.sh = "tables" -> {[sh |-> "tables", k |-> a, v |-> b] : b \in Second("tables", a)}
     [] sd.sh = "jsonml" -> {[sh |-> "jsonml", t |-> a, v |-> b] : b \in Second("jsonml", a)} \cup {[sh |-> "jsonml", t |-> b, v |-> a] : b \in Second("jsonml", a)}
+                           \cup {[sh |-> "jsonmlattr", t |-> a, v |-> b] : b \in Second("jsonml", a)}
     [] sd.sh = "ini" -> {[sh |-> "ini", k |-> a, v |-> b] : b \in Second("ini", a)} \cup {[sh |-> "ini", k |-> b, v |-> a] : b \in Second("ini", a)}
     [] sd.sh = "fixed" -> IF a = 1 THEN {[sh |-> "mixed"], [sh |-> "func"], [sh |-> "badjsonml"]} ELSE {}
 Next == \/ (st.ph = "seed" /\ \E s \in Expand(st.s, st.a) : st' = [ph |-> "case", s |-> s])
